@@ -173,7 +173,7 @@ def do_op(op, states, workdir):
         torch.rand(op["m"])
         return None
     if t == "setSeed":
-        qucumber.set_random_seed(op["s"], cpu=op["cpu"], gpu=False, quiet=True)
+        qucumber.set_random_seed(op["s"], cpu=op["cpu"], gpu=op.get("gpu", False), quiet=True)
         return None
     if t == "construct":
         k = op["kind"]
